@@ -331,6 +331,11 @@ fn normalize_encoded_attr(attr: &str) -> String {
         .unwrap_or_else(|_| attr.to_owned())
 }
 
+#[cfg(anoncreds_verif)]
+pub(crate) fn verif_normalize_encoded_attr(attr: &str) -> String {
+    normalize_encoded_attr(attr)
+}
+
 pub(crate) fn verify_revealed_attribute_value(
     attr_name: &str,
     sub_proof: &SubProof,
